@@ -19,6 +19,9 @@ type BulkOp struct {
 
 func bulkDoc(i int, pad int) m.Doc {
 	d := m.Doc{"_id": ID(i + 1), "x": int64(i % 7), "y": int64(i), "g": int64(i % 3), "xy": int64((i * 5) % 11), "n": map[string]interface{}{"a": int64(i % 5), "b": "keep"}}
+	if i%2 == 0 {
+		d["opt"] = int64(i % 4) // only every other document carries this field
+	}
 	if pad > 0 {
 		d["pad"] = strings.Repeat("p", pad)
 	}
@@ -52,6 +55,15 @@ func BulkOps() []BulkOp {
 		mk("updatefunc-nested-field-inplace", m.Op{K: "updateFunc", Q: &m.Q{Coll: "a", Crit: m.Leaf("lte", "n.a", int64(3)), Sort: []m.SortOpt{{Field: "n.a", Dir: 1}}}, Upd: upd("inplace", "n.a", int64(9))}),
 		mk("updatefunc-replace-nested-object", m.Op{K: "updateFunc", Q: all(nil), Upd: upd("copy", "n", map[string]interface{}{"a": int64(1)})}),
 		mk("delete-on-nested-field", m.Op{K: "delete", Q: all(m.Leaf("eq", "n.a", int64(0)))}),
+		mk("update-adds-missing-indexed-field", m.Op{K: "update", Q: all(m.NotExists("opt")), Set: map[string]interface{}{"opt": int64(9)}}),
+		mk("updatefunc-on-range-including-missing", m.Op{K: "updateFunc", Q: &m.Q{Coll: "a", Crit: m.Leaf("lte", "opt", int64(1)), Sort: []m.SortOpt{{Field: "opt", Dir: 1}}}, Upd: upd("inplace", "opt", int64(3))}),
+		mk("delete-on-range-including-missing", m.Op{K: "delete", Q: all(m.Leaf("lt", "opt", int64(2)))}),
+		{Name: "updatefunc-invalid-result-for-first", Op: func(n int) m.Op {
+			return m.Op{K: "updateFunc", Q: all(nil), Upd: &m.Updater{Set: map[string]interface{}{"w": int64(1)}, Style: "copy", BadFor: ID(1)}}
+		}},
+		{Name: "updatefunc-invalid-result-in-the-middle", Op: func(n int) m.Op {
+			return m.Op{K: "updateFunc", Q: &m.Q{Coll: "a", Crit: m.Leaf("gte", "x", int64(0))}, Upd: &m.Updater{Set: map[string]interface{}{"x": int64(50)}, Style: "inplace", BadFor: ID(n/2 + 1)}}
+		}},
 		mk("updatefunc-remove", m.Op{K: "updateFunc", Q: all(m.Leaf("eq", "g", int64(0))), Upd: &m.Updater{Nil: true}}),
 		{Name: "drop-and-recreate", Op: func(int) m.Op { return m.Op{K: "dropColl", Coll: "a"} }, Then: func(int) []m.Op {
 			return []m.Op{{K: "createColl", Coll: "a"}, {K: "insert", Coll: "a", Docs: []m.Doc{bulkDoc(0, 0)}}}
@@ -225,6 +237,16 @@ func BulkSweep(cfg *BulkConfig, run *ev.Run, ownTags map[string]bool) {
 			return
 		}
 		if res.Err != nil {
+			if op.Upd != nil && op.Upd.BadFor != "" && preModel.Colls["a"].Docs[op.Upd.BadFor] != nil {
+				// expected to fail: nothing may have changed
+				for _, f := range drv.AuditAPI(in, model, drv.AuditOpts{}) {
+					report(f)
+				}
+				for _, f := range drv.AuditRaw(in, scratch, model) {
+					report(f)
+				}
+				return
+			}
 			report(Finding{Tag: "bulk-error", Msg: fmt.Sprintf("%s failed: %v", t.op.Name, res.Err)})
 			return
 		}
